@@ -6,7 +6,7 @@
    Keys carry their xxhash value. [nat_less] is natsort.Compare. *)
 From Coq Require Import NArith ZArith List Bool Permutation String Lia.
 Import ListNotations.
-From Verif Require Import Lib.Corr Lib.Misc_Cmp Gen.C49 Model.C49 Proofs.C49 Proofs.C49_ieee Proofs.C49_prim.
+From Verif Require Import Lib.Corr Lib.Misc_Cmp Gen.C49 Model.C49 Proofs.C49 Proofs.C49_ieee Proofs.C49_prim Proofs.C49_natsort.
 Open Scope Z_scope.
 
 (* The hypothesis on [nextj] is only needed where the code evaluates the
@@ -60,6 +60,34 @@ Proof.
   pose proof (set_servers_order_independent _ _ H1 H2 H3) as E. split; [exact E|]. intro k. rewrite E. reflexivity.
 Qed.
 Print Assumptions C49_order_independent.
+
+(* natsort.Compare on "statefulset-like" names — a common prefix P that does not
+   end with a digit, a run of digits, a common suffix S that does not begin with
+   one (memcached-<n>.memcached.svc:11211, 10.0.0.<n>:11211, /run/mc-<n>.sock) —
+   is the order of the numbers, provided they fit int64 and are pairwise
+   different; so for every such list the stored order, hence every pick, does
+   not depend on the listing order, without evaluating the comparison. *)
+Theorem C49_natsort_statefulset : forall P S,
+  match rev P with x :: _ => is_digit x = false | [] => True end ->
+  match S with y :: _ => is_digit y = false | [] => True end ->
+  forall d1 d2, okd d1 -> okd d2 -> digits_val d1 <> digits_val d2 ->
+  nat_less (name P S d1) (name P S d2) = (digits_val d1 <? digits_val d2).
+Proof. exact nat_less_names. Qed.
+Print Assumptions C49_natsort_statefulset.
+
+Theorem C49_order_independent_statefulset : forall nextj P S,
+  match rev P with x :: _ => is_digit x = false | [] => True end ->
+  match S with y :: _ => is_digit y = false | [] => True end ->
+  forall ds, Forall okd ds -> NoDup (map digits_val ds) ->
+  forall listed2, Permutation (map (name P S) ds) listed2 ->
+  set_servers (map (name P S) ds) = set_servers listed2
+  /\ forall k, pick nextj (set_servers (map (name P S) ds)) k = pick nextj (set_servers listed2) k.
+Proof.
+  intros nextj P S HP HS ds Hok Hnd l2 Hp.
+  pose proof (names_order_independent P S HP HS ds Hok Hnd l2 Hp) as E.
+  split; [exact E | intro k; rewrite E; reflexivity].
+Qed.
+Print Assumptions C49_order_independent_statefulset.
 
 (* Adding a server that sorts last only moves keys onto it. *)
 Theorem C49_add_last : forall nextj N, 1 <= N -> nextj_ok nextj N ->
@@ -169,3 +197,16 @@ Example C49_nonvacuous :
   /\ strict_total_b nat_less [srv2; srv0; srv1] = true /\ nodup_b [srv2; srv0; srv1] = true
   /\ set_servers [srv2; srv0; srv1] = [srv0; srv1; srv2].
 Proof. split; [intros b k _ _; lia|]. vm_compute. repeat split; reflexivity. Qed.
+
+(* Non-vacuity for the statefulset class: "/s" ++ digits, numbers 10, 9, 2. *)
+Example C49_statefulset_nonvacuous :
+  let P := [47; 115]%N in
+  let ds := [[49; 48]; [57]; [50]]%N in
+  Forall okd ds /\ NoDup (map digits_val ds)
+  /\ set_servers (map (name P []) ds) = map (name P []) [[50]; [57]; [49; 48]]%N.
+Proof.
+  cbv zeta. split; [|split].
+  - repeat constructor; try discriminate; vm_compute; congruence.
+  - vm_compute. repeat constructor; simpl; intuition discriminate.
+  - vm_compute. reflexivity.
+Qed.
